@@ -631,8 +631,12 @@ func NewLockCommandDataPopData(popValue uint32) *LockCommandData {
 }
 
 func (self *LockCommandData) GetValueOffset() int {
-	if self.DataFlag&LOCK_DATA_FLAG_CONTAINS_PROPERTY != 0 {
-		return (int(self.Data[6]) | (int(self.Data[7]) << 8)) + 8
+	if self.DataFlag&LOCK_DATA_FLAG_CONTAINS_PROPERTY != 0 && len(self.Data) >= 8 {
+		valueOffset := (int(self.Data[6]) | (int(self.Data[7]) << 8)) + 8
+		if valueOffset > len(self.Data) {
+			return len(self.Data)
+		}
+		return valueOffset
 	}
 	return 6
 }
